@@ -40,7 +40,12 @@ def plan_st(draw, tier):
     for _ in range(n):
         h.step(["fit", "partial_fit", "partial_fit", "partial_fit", "add_arm", "remove_arm"])
     mq = draw(st.sampled_from([None, 1, 2, 4]))
-    return {"config": cfg, "ops": h.ops, "family": h.family, "mq": mq}
+    ops_ = h.ops
+    if draw(st.integers(0, 11)) == 0 and h.family not in ("F", "Fpos"):
+        # one training call with thousands of rows (the batch tiled; exactly summable rewards stay exact)
+        i = draw(st.sampled_from([k for k, op in enumerate(ops_) if op[0] in ("fit", "partial_fit")]))
+        ops_[i] = [ops_[i][0] + "_tiled", ops_[i][1], ops_[i][2], ops_[i][3], draw(st.sampled_from([300, 1100, 4200]))]
+    return {"config": cfg, "ops": ops_, "family": h.family, "mq": mq}
 
 
 def strategy(tier, ctx):
@@ -204,6 +209,9 @@ def evaluate(plan, ctx):
         out = ops.apply_op(mab, op)
         if ops.is_exc(out):
             raise Violation("unexpected_exception", "step %d %s raised %r" % (i, op[0], out))
+        if op[0].endswith("_tiled"):
+            events.append("tiled_training_call")
+            op = [op[0][:-6], list(op[1]) * op[4], list(op[2]) * op[4], None]
         k = op[0]
         if k == "fit":
             r.fit(op[1], op[2])
